@@ -707,7 +707,7 @@ fn shape_case(shapes: &[Vec<usize>], offsets: &[usize], i: usize) -> CaseResult 
 // (iii) several documents in one invocation: every record of the stream is checked on its own
 
 /// a variant of `doc`: one top-level or Resources entry dropped / one scalar replaced
-fn vary_doc(u: &mut Choices, doc: &V, sz: &Size) -> V {
+pub fn vary_doc(u: &mut Choices, doc: &V, sz: &Size) -> V {
     match u.below(4) {
         0 => gen_cfn_doc(u, sz),
         1 => {
